@@ -2311,7 +2311,15 @@ class SequenceAndSetBase(base.ConstructedAsn1Type):
 
     @property
     def components(self):
-        return self._componentValues
+        if self._componentValues is noValue:
+            return self._componentValues
+
+        # A component that has been read but never assigned holds a
+        # schema object: it is as absent as an untouched one
+        return [componentValue
+                if componentValue is noValue or componentValue.isValue
+                else noValue
+                for componentValue in self._componentValues]
 
     def _cloneComponentValues(self, myClone, cloneValueFlag):
         if self._componentValues is noValue:
